@@ -1,4 +1,4 @@
-from . import rules_c02, inputs
+from . import rules_c02, rules_text, inputs
 from .check_c01 import QUICK_SQUARES
 from spec import geometry as G
 
@@ -12,6 +12,9 @@ def run(ctx, prog, facts, tier):
     rules_local.check_preview_tables(ctx, prog, I)
     rules_c02.check_capture_footprint(ctx, prog, I)
     rules_c02.check_take_action_composition(ctx, prog, I, mvs[::4])
+    # the preview reads the owner from the gold mask: sound only if that mask never holds a bit of an empty square, also for
+    # positions that come from text
+    rules_text.check_parsed_board_consistent(ctx, prog, 'C13', full=False)
     ctx.floor('C13 preview modes', len(mvs), 60)
     ctx.exhaustive = tier != 'quick'
     ctx.assumptions += ['NOT decided: "no single step removes more than one piece" (a geometric fact about legal steps, '
